@@ -399,7 +399,8 @@ Definition rational_ok (sp : text) (r : Z) : Prop :=
 Lemma parse_rational_cases p t r :
   (exists o, parse_rational p t r = Ok o) \/ (exists s, parse_rational p t r = Panic s).
 Proof.
-  unfold parse_rational. destruct (ratio32_from_str_radix p t r) as [o|e|s|] eqn:E; cbn [bind].
+  unfold parse_rational. destruct (signed_denominator t); [eauto|].
+  destruct (ratio32_from_str_radix p t r) as [o|e|s|] eqn:E; cbn [bind].
   - left. destruct o as [[n d]|].
     + destruct (d =? 1); eauto.
     + destruct (bigratio_from_str_radix t r) as [[n d]|]; [|eauto]. destruct (d =? 1); eauto.
@@ -429,11 +430,24 @@ Lemma parse_rational_unsigned_den p t r : 0 <= r ->
   exists o, parse_rational p t r = Ok o.
 Proof.
   intros Hr Hu. destruct (parse_rational_cases p t r) as [?|(s & Hs)]; [assumption|exfalso].
-  unfold parse_rational in Hs.
+  unfold parse_rational in Hs. destruct (signed_denominator t); [discriminate|].
   destruct (ratio32_from_str_unsigned_den p t r Hr Hu) as (o & Ho). rewrite Ho in Hs. cbn [bind] in Hs.
   destruct o as [[n d]|].
   - destruct (d =? 1); discriminate.
   - destruct (bigratio_from_str_radix t r) as [[n d]|]; [|discriminate]. destruct (d =? 1); discriminate.
+Qed.
+
+(* after fix e424813 the side condition holds for every text: a signed denominator is
+   rejected before Ratio<i32>::from_str_radix is reached, and an unsigned one cannot
+   make reduce() negate *)
+Lemma rational_ok_all sp r : 0 <= r -> rational_ok sp r.
+Proof.
+  intros Hr s Hs. destruct (signed_denominator sp) eqn:Esd.
+  - unfold parse_rational in Hs. rewrite Esd in Hs. discriminate.
+  - destruct (parse_rational_unsigned_den Debug sp r Hr) as (o & Ho); [|congruence].
+    intros a b Hab. unfold signed_denominator in Esd. rewrite Hab in Esd.
+    destruct b as [|c b']; [exact I|]. cbn [unsigned_head].
+    apply Bool.orb_false_elim in Esd as [E1 E2]. apply N.eqb_neq in E1, E2. auto.
 Qed.
 
 Theorem parse_with_exactness_safe sp ex r : 2 <= r <= 36 -> rational_ok sp r ->
@@ -695,20 +709,12 @@ Proof.
   unfold parse_fuel. lia.
 Qed.
 
-(* the class is not empty: the pinned code panics (debug build) *)
-Theorem parse_text_refuted :
-  exists t, known_C06 t = true /\ parse_text t = Panic P_I32_OVERFLOW.
-Proof.
-  (* #d1/-2147483648 *)
-  exists [35; 100; 49; 47; 45; 50; 49; 52; 55; 52; 56; 51; 54; 52; 56].
-  split; vm_compute; reflexivity.
-Qed.
-
-Theorem parse_text_total_stmt_false : ~ parse_text_total_stmt.
-Proof.
-  intros H. destruct parse_text_refuted as (t & _ & Hp).
-  destruct (H t) as [(d & r & H1)|(e & H1)]; congruence.
-Qed.
+(* before fix e424813 the class was not empty ("#d1/-2147483648" panicked in a debug
+   build); the former witness now reads as a symbol *)
+Example former_witness_is_read :
+  parse_text [35; 100; 49; 47; 45; 50; 49; 52; 55; 52; 56; 51; 54; 52; 56]
+  = Ok (CSym [49; 47; 45; 50; 49; 52; 55; 52; 56; 51; 54; 52; 56], None).
+Proof. vm_compute. reflexivity. Qed.
 
 (* once [rational_ok] holds for every text (after the repair of parse_rational) the
    class is empty and the full statement follows: nothing else has to be redone *)
@@ -728,6 +734,13 @@ Qed.
 Theorem parse_text_total_of_rational_ok :
   (forall sp r, In r [2; 8; 10; 16]%Z -> rational_ok sp r) -> parse_text_total_stmt.
 Proof. intros Hok t. apply parse_text_total, known_C06_empty, Hok. Qed.
+
+(* the class is empty and the reader is total on EVERY text *)
+Lemma known_C06_never t : known_C06 t = false.
+Proof. apply known_C06_empty. intros sp r Hin. apply rational_ok_all. cbn in Hin. lia. Qed.
+
+Theorem parse_text_total_full : parse_text_total_stmt.
+Proof. apply parse_text_total_of_rational_ok. intros sp r Hin. apply rational_ok_all. cbn in Hin. lia. Qed.
 
 (* ====================================================================== F *)
 (* the remaining text of a successful [parse_text] is again outside the class, and
